@@ -13,21 +13,16 @@ parenthesis is a `NEWLINE` token where none is allowed.
 -/
 namespace Gx.C17
 
-theorem takeWhile_isWs_blank (cs : List Char) (c : Char) (h : c = ' ' ∨ c = '\t') :
-    (takeWhileC isWs (c :: cs)).2 = (takeWhileC isWs cs).2 := by
-  rcases h with rfl | rfl <;> simp [takeWhileC, isWs]
+/-- **A blank or tab is skipped whatever precedes it**: inserting spaces / tabs between tokens
+changes nothing (only the blanks are consumed; what follows is lexed as before). -/
+theorem lex_skip_blank (fuel : Nat) (cs : List Char) (acc : List Tok) (b : Bool) (c : Char) (h : c = ' ' ∨ c = '\t') :
+    lexAux (fuel + 1) b (c :: cs) acc = lexAux fuel b (takeWhileC isInline cs).2 acc := by
+  rcases h with rfl | rfl <;> simp [lexAux, isInline]
 
-/-- **A blank or tab in front of any text is skipped** when no `NEWLINE` can start there
-(after an operator, `(`, `,`, `=`): inserting spaces / tabs between tokens is inert. -/
-theorem lex_skip_blank (fuel : Nat) (cs : List Char) (acc : List Tok) (c : Char) (h : c = ' ' ∨ c = '\t') :
-    lexAux (fuel + 1) false (c :: cs) acc = lexAux fuel false (takeWhileC isWs cs).2 acc := by
-  rcases h with rfl | rfl <;> simp [lexAux, isWs]
-
-/-- after an operand a run that *starts* with a blank is plain white space as well (only a run that
-starts with a line break is a `NEWLINE`) -/
-theorem lex_skip_blank_after_operand (fuel : Nat) (cs : List Char) (acc : List Tok) (c : Char) (h : c = ' ' ∨ c = '\t') :
-    lexAux (fuel + 1) true (c :: cs) acc = lexAux fuel true (takeWhileC isWs cs).2 acc := by
-  rcases h with rfl | rfl <;> simp [lexAux, isWs, startsNewline]
+/-- a run of blanks is skipped as a whole: `takeWhileC isInline` never stops inside it -/
+theorem inline_run (cs : List Char) (c : Char) (h : c = ' ' ∨ c = '\t') :
+    (takeWhileC isInline (c :: cs)).2 = (takeWhileC isInline cs).2 := by
+  rcases h with rfl | rfl <;> simp [takeWhileC, isInline]
 
 /-- the text of a comment never produces any token other than the one `comment` token: whatever
 follows `#` up to the end of the line is taken verbatim -/
@@ -36,8 +31,9 @@ theorem lex_comment (fuel : Nat) (cs : List Char) (acc : List Tok) (b : Bool)
     lexAux (fuel + 1) b ('#' :: cs) acc =
       lexAux fuel true (takeWhileC (· != '\n') (takeWhileC isWs cs).2).2
         (.comment (String.ofList (takeWhileC (· != '\n') (takeWhileC isWs cs).2).1) :: acc) := by
-  have : isWs '#' = false := by decide
-  simp only [lexAux, this, Bool.false_eq_true, if_false]
+  have h1 : isWs '#' = false := by decide
+  have h2 : isInline '#' = false := by decide
+  simp only [lexAux, h1, h2, Bool.false_eq_true, if_false]
   simp [hne]
 
 /-! Executable checks of the lexer / parser model on layout variants (tests on concrete texts). -/
